@@ -1,14 +1,224 @@
-//! (rules to be transcribed)
+//! MT900, MT910, MT920, MT935, MT940, MT941, MT942, MT950 — documented rules (doc comments of
+//! validate_* and the rule description strings in /repo/src/messages/mt9*.rs, SR2025 category 9)
 use super::*;
 
-pub fn expected(_v: &RView) -> Expect {
+/// MT920 field 12: the message types that may be requested (T88)
+const VALID_12: &[&str] = &["940", "941", "942", "950"];
+/// MT935 field 23, subfield Function (T26)
+const VALID_23_FUNCTION: &[&str] = &["BASE", "CALL", "COMMERCIAL", "CURRENT", "DEPOSIT", "NOTICE", "PRIME"];
+/// currencies the generator uses that are ISO 4217 codes (anything else: T52 is left undetermined)
+const KNOWN_ISO: &[&str] = &["USD", "USN", "EUR", "GBP", "JPY", "CHF"];
+
+/// D/C mark of a 34F content `3!a[1!a]15d`
+fn mark_of_34f(f: &GenField) -> Option<char> {
+    f.content.chars().nth(3).filter(|c| c.is_ascii_alphabetic())
+}
+
+/// first two letters of the currency of a balance / floor limit / sum field
+fn ccy2(f: &GenField) -> String {
+    ccy_of(f).chars().take(2).collect()
+}
+
+/// C27: the first two characters of the currency code must be the same for all occurrences of the listed fields
+fn c27(e: &mut Expect, fs: &[&GenField], pats: &[&str]) {
+    let mut seen: BTreeSet<String> = BTreeSet::new();
+    for f in fs {
+        if pats.iter().any(|p| tag_is(&f.tag, p)) {
+            seen.insert(ccy2(f));
+        }
+    }
+    e.must_if(seen.len() > 1, "C27");
+}
+
+/// C23: one 34F => no D/C mark; two 34F => first carries D, second carries C
+fn c23(e: &mut Expect, f34: &[&GenField]) {
+    match f34.len() {
+        0 => {}
+        1 => e.must_if(mark_of_34f(f34[0]).is_some(), "C23"),
+        _ => {
+            e.must_if(mark_of_34f(f34[0]) != Some('D'), "C23");
+            e.must_if(mark_of_34f(f34[1]) != Some('C'), "C23");
+            // a third occurrence is outside the format; whatever it carries, the pair rule is already decided
+        }
+    }
+}
+
+/// MT935 field 23 `3!a[2!n]11x` (Currency)(Number of Days)(Function): is the content in breach of T26?
+fn breaks_t26(content: &str) -> bool {
+    let cs: Vec<char> = content.chars().collect();
+    if cs.len() < 4 {
+        return true;
+    }
+    if !cs[..3].iter().all(|c| c.is_ascii_uppercase()) {
+        return true;
+    }
+    let rest = &cs[3..];
+    let (days, function): (bool, String) = if rest.len() >= 2 && rest[..2].iter().all(|c| c.is_ascii_digit()) {
+        (true, rest[2..].iter().collect())
+    } else {
+        (false, rest.iter().collect())
+    };
+    if !VALID_23_FUNCTION.contains(&function.as_str()) {
+        return true;
+    }
+    // Number of Days must only be used when Function is NOTICE
+    days && function != "NOTICE"
+}
+
+/// 37H `1!a[N]12d`: (indicator, sign used, rate is exactly zero)
+fn parts_37h(content: &str) -> (char, bool, bool) {
+    let mut it = content.chars();
+    let ind = it.next().unwrap_or(' ');
+    let rest: String = it.collect();
+    let (sign, num) = match rest.strip_prefix('N') {
+        Some(r) => (true, r.to_string()),
+        None => (false, rest),
+    };
+    let zero = num.chars().any(|c| c.is_ascii_digit()) && num.chars().filter(|c| c.is_ascii_digit()).all(|c| c == '0');
+    (ind, sign, zero)
+}
+
+pub fn expected(v: &RView) -> Expect {
     let mut e = Expect::default();
-    // until transcribed: every code is undetermined (no verdict)
-    e.undet("*");
+    let f = v.everything();
+    match v.mt {
+        // MT900: no network validated rules
+        "900" => {}
+        // MT910 C1 (C06): either 50a or 52a must be present
+        "910" => {
+            e.must_if(!has(&f, "50*") && !has(&f, "52*"), "C06");
+        }
+        "920" => {
+            for s in v.seqs() {
+                let t12 = get(&s, "12").map(|x| x.content.clone()).unwrap_or_default();
+                let f34 = all(&s, "34F");
+                // T88: field 12 must be one of 940, 941, 942, 950
+                e.must_if(!VALID_12.contains(&t12.as_str()), "T88");
+                // C1 (C22): 12 = 942 => at least the (debit / debit-and-credit) floor limit present
+                e.must_if(t12 == "942" && f34.is_empty(), "C22");
+                // C2 (C23)
+                c23(&mut e, &f34);
+                // C3 (C40): same currency code in every 34F of the sequence
+                let ccys: BTreeSet<String> = f34.iter().map(|x| ccy_of(x)).collect();
+                e.must_if(ccys.len() > 1, "C40");
+            }
+        }
+        "935" => {
+            let seqs = v.seqs();
+            // C1 (T10): the repetitive sequence appears 1..10 times
+            e.must_if(seqs.is_empty() || seqs.len() > 10, "T10");
+            for s in &seqs {
+                // C2 (C83): either 23 or 25, not both
+                e.must_if(has(s, "23") == has(s, "25"), "C83");
+                for x in all(s, "23") {
+                    e.must_if(breaks_t26(&x.content), "T26");
+                    // the handbook also wants an ISO 4217 code here (T52); the message documentation is silent about it
+                    let c: String = head(x, 3);
+                    if !KNOWN_ISO.contains(&c.as_str()) {
+                        e.undet("T52");
+                    }
+                }
+                for x in all(s, "37H") {
+                    let (ind, sign, zero) = parts_37h(&x.content);
+                    // T51: indicator C or D
+                    e.must_if(ind != 'C' && ind != 'D', "T51");
+                    // T14: sign must not be used if the rate is zero
+                    e.must_if(sign && zero, "T14");
+                }
+            }
+        }
+        "940" => {
+            // C1 (C24): every 86 is preceded by a 61
+            for (i, x) in v.fields.iter().enumerate() {
+                if x.tag == "86" {
+                    e.must_if(i == 0 || v.fields[i - 1].tag != "61", "C24");
+                }
+            }
+            // C2 (C27)
+            c27(&mut e, &f, &["60*", "62*", "64", "65"]);
+        }
+        "941" => {
+            // C1 (C27)
+            c27(&mut e, &f, &["60F", "90D", "90C", "62F", "64", "65"]);
+        }
+        "942" => {
+            // C1 (C27)
+            c27(&mut e, &f, &["34F", "90D", "90C"]);
+            // C2 (C23)
+            c23(&mut e, &all(&f, "34F"));
+            // C3 (C24): an 86 is preceded by a 61, except when it is the last field of the message
+            let n = v.fields.len();
+            for (i, x) in v.fields.iter().enumerate() {
+                if x.tag == "86" && i + 1 != n {
+                    e.must_if(i == 0 || v.fields[i - 1].tag != "61", "C24");
+                }
+            }
+        }
+        "950" => {
+            // C1 (C27)
+            c27(&mut e, &f, &["60*", "62*", "64"]);
+        }
+        _ => e.undet("*"),
+    }
     e
 }
 
+/// currencies sharing / not sharing the first two letters
+const CCY2_POOL: &[&str] = &["USD", "USD", "USD", "USD", "USN", "USN", "USD", "EUR"];
+const AMT_POOL: &[&str] = &["100,", "250,50", "1000,", "99,99", "1,"];
+
 pub fn content_hook(mt: &str, tag: &str, src: &mut crate::choice::Src) -> Option<String> {
-    let _ = (mt, tag, src);
-    None
+    match (mt, tag) {
+        ("920", "12") => Some(src.pick(&["940", "941", "942", "942", "942", "950", "103", "999", "000"]).to_string()),
+        ("920", "34F") => {
+            let c = *src.pick(&["USD", "USD", "USD", "USN", "EUR", "USD"]);
+            let ind = *src.pick(&["", "D", "C", "D", "C"]);
+            Some(format!("{c}{ind}{}", src.pick(AMT_POOL)))
+        }
+        ("942", "34F") => {
+            let c = *src.pick(CCY2_POOL);
+            let ind = *src.pick(&["", "D", "C", "D", "C"]);
+            Some(format!("{c}{ind}{}", src.pick(AMT_POOL)))
+        }
+        ("940" | "941" | "942" | "950", "60F" | "60M" | "62F" | "62M" | "64" | "65") => {
+            let c = *src.pick(CCY2_POOL);
+            let dc = *src.pick(&["C", "D"]);
+            let d = crate::spec::gen_date6(src);
+            Some(format!("{dc}{d}{c}{}", src.pick(AMT_POOL)))
+        }
+        ("941" | "942", "90C" | "90D") => {
+            let c = *src.pick(CCY2_POOL);
+            let n = 1 + src.below(20);
+            Some(format!("{n}{c}{}", src.pick(AMT_POOL)))
+        }
+        ("935", "23") => Some(
+            src.pick(&[
+                "USDBASE",
+                "EURCALL",
+                "USDCOMMERCIAL",
+                "GBPCURRENT",
+                "CHFDEPOSIT",
+                "USDNOTICE",
+                "EURPRIME",
+                // Number of Days: the field parser only lets it through after the letters NOT
+                "NOT07NOTICE",
+                "NOT15BASE",
+                "NOT31CALL",
+                "USD07NOTICE",
+                // not a Function code
+                "USDXXXX",
+                "EURPRIM",
+                "USDbase",
+                "USDNOTICE7",
+                "USD1CALL",
+                "GBPBASE RATE",
+                "USD/",
+                // first subfield not 3!a (the field parser lets a blank through)
+                "U DBASE",
+            ])
+            .to_string(),
+        ),
+        ("935", "37H") => Some(src.pick(&["C2,5", "D3,75", "CN0,25", "DN1,", "C0,", "D0,00", "CN0,", "DN0,00", "CN00,0", "CN0,000001", "D0,000001"]).to_string()),
+        _ => None,
+    }
 }
